@@ -63,6 +63,11 @@ def module_case(seed, index, tier, T, ctx="synth", **kw):
 _LOADS = [0]
 
 
+class LoaderContractBroken(Exception):
+    """The loader returned nothing (or the wrong kind of thing) for bytes that ARE a container when read from their start - the
+    worker reports this as a violation of the running property, not as a harness fault."""
+
+
 def load(raw):
     """Load from an in-memory stream; every fifth time the file sits BEHIND something else in the stream (a bundle header, an
     archive member offset) and the stream is positioned at its start, as `read_sunvox_file(f)` documents ("file f")."""
@@ -72,7 +77,11 @@ def load(raw):
         head = (b"BNDL\x01\x00\x00\x00hdr!", b"\0" * 7, b"SVOX\0\0\0\0"[:5])[_LOADS[0] // 5 % 3]
         f = BytesIO(head + bytes(raw))
         f.seek(len(head))
-        return api.read_sunvox_file(f)
+        o = api.read_sunvox_file(f)
+        if o is None and api.read_sunvox_file(BytesIO(bytes(raw))) is not None:
+            raise LoaderContractBroken(f"read_sunvox_file returned None for a stream positioned at the start of a container that sits {len(head)} bytes into it "
+                                       f"(the same bytes load from a stream of their own)")
+        return o
     return api.read_sunvox_file(BytesIO(raw))
 
 
